@@ -148,10 +148,7 @@ func parseBehaviour(steps []*Step) (txs []*Tx, exp [][]*Step, err error) {
 			return nil, nil, fmt.Errorf("step %d: expected a transaction start, got %q", i, s.A)
 		}
 		i++
-		if s.Res != "reject" {
-			if i >= len(steps) {
-				return nil, nil, fmt.Errorf("behaviour ends inside a transaction")
-			}
+		if s.Res != "reject" && i < len(steps) {
 			n := steps[i]
 			switch n.A {
 			case "top":
@@ -174,12 +171,15 @@ func parseBehaviour(steps []*Step) (txs []*Tx, exp [][]*Step, err error) {
 			default:
 				return nil, nil, fmt.Errorf("step %d: unexpected %q after transaction start", i, n.A)
 			}
-			if tx.Kind != "sdata" && tx.Kind != "kquai" {
-				if i >= len(steps) || steps[i].A != "txend" {
+			if tx.Kind != "sdata" && tx.Kind != "kquai" && i < len(steps) {
+				if steps[i].A != "txend" {
 					return nil, nil, fmt.Errorf("step %d: expected txend", i)
 				}
 				i++
 			}
+		}
+		if tx.Kind == "sdata" && tx.Benef == "" {
+			tx.Benef = tx.Payer // history stops before the branch is taken: any beneficiary will do
 		}
 		txs = append(txs, tx)
 		exp = append(exp, steps[start:i])
@@ -242,7 +242,9 @@ func (ps *parser) parseFrame(steps []*Step, i int, host string, isInit bool, dep
 			return nil, i, fmt.Errorf("step %d: %q inside a frame", i, s.A)
 		}
 	}
-	return nil, i, fmt.Errorf("behaviour ends inside a frame")
+	// the history stops inside this frame: the driver lets it (and its callers) STOP
+	sc.ops = append(sc.ops, &Op{A: "stop"})
+	return sc, i, nil
 }
 
 // ---------------------------------------------------------------- compilation to bytecode
